@@ -24,8 +24,7 @@ BOUNDS = {"quick": {"rules per block": "1..4 (Highest/Lowest 1..3)", "degrees": 
                     "thresholds": "symbolic real in [0,1]", "patterns": "unloaded rule at each position; disabled rules for General/Threshold; "
                                                                          "disabled non-qualifying rule for the counting methods"},
           "thorough": {"rules per block": "1..5 (Highest/Lowest 1..4)"}}
-OUTSIDE = ["blocks with more rules than the bound", "Proportional in floating point (the division is exact-real only)", "whether a disabled rule with a qualifying degree consumes one of the n slots (the statement "
-           "does not say; disabled rules are only used where both readings agree)"]
+OUTSIDE = ["blocks with more rules than the bound", "Proportional in floating point (the division is exact-real only)"]
 ASSUMPTIONS = ["degrees finite in [0,1]; thresholds finite", "each rule concludes a distinct term so contributions are attributable"]
 STUBS = ["abstract Term (public extension point) returning the symbolic degree of its rule",
          "scalar(<python number>) boxed as a 0-d symbolic array so that `sum_degrees += d` (Proportional) can be executed"]
@@ -346,9 +345,10 @@ def obligations(tier, seed):
             # disabled rules
             for k in range(3):
                 en = tuple(i != k for i in range(3))
-                counting = method in ("First", "Last", "Highest", "Lowest", "Proportional")
-                nm = f"{tag}/N3/disabled{k}{'-zero' if counting else ''}"
-                obs.append((nm, ob_method(method, 3, (True,) * 3, en, cmp, zero_disabled=counting, label=nm)))
+                # a disabled rule keeps its degree: read literally, the statement selects "the first n rules with degree > 0 and >= t"
+                # (resp. the n largest/smallest) whether enabled or not - a selected disabled rule uses its slot and contributes nothing
+                nm = f"{tag}/N3/disabled{k}"
+                obs.append((nm, ob_method(method, 3, (True,) * 3, en, cmp, zero_disabled=False, label=nm)))
             # two successive activations with fresh degrees: no stale state
             for N in ((2, 3) if tier == "quick" else (2, 3, 4)):
                 if method in ("Highest", "Lowest") and N > 3:
